@@ -104,6 +104,16 @@ pub fn configs(tier: Tier) -> Vec<Cfg> {
             }
         }
     }
+    // the configuration grid shared with C02/C15 (brands, kinds, languages, every AAC object type / frequency index,
+    // parameter-set lengths): add_track of every track, then short sample sequences
+    for (gi, m) in config_grid().into_iter().enumerate() {
+        let mut al: Vec<Call> = (0..m.tracks.len()).map(Call::Add).collect();
+        al.extend(sample_ops(&[1], &[1], &[m.tracks[0].timescale], &[0]));
+        if m.tracks.len() > 1 {
+            al.extend(sample_ops(&[2], &[0], &[1024], &[0]));
+        }
+        v.push(Cfg { name: format!("config_grid:{}", gi), movie: m, alphabet: al, max_len: 3 });
+    }
     // languages and brands of any bytes
     let langs: Vec<String> = vec!["".into(), "x".into(), "xy".into(), "ENG".into(), "\u{65e5}\u{672c}\u{8a9e}".into(), "z".repeat(300), "\0\0\0".into(), "\u{1F600}a".into()];
     for lang in langs {
